@@ -55,19 +55,19 @@ CHECKS = {
     ),
     "C02": dict(
         technique=SQL,
-        text="TLC enumerates programs over tables T1{a,b} (3-12 contents incl. duplicates/empties, exact/loose/zero/unbounded declarations), T2{a,c}, T3{a,b}: the six unary operations from a general menu (all projections, 10 predicates, 7 sort lists, 7 slices) to depth 2 and a focused 12-operation menu (hitting every has_slice/has_dedup/has_projection/compound branch of the Select machine) to depth 3-5, plus join (with/without predicate, operand on either side) and chain with 12 pre-built operands (projected, deduplicated, selected, sorted+sliced, calculated, bare chain). TLC proves on the code-shaped Select machine that the tree denotes the reference bag for both physical table orders whenever the bag is determined, and - on the code-shaped COMPILATION model RA_SqlCompile (to_payload / _select_to_executable with the columns_available plumbing) - that the abstract SQL statement, run with both table orders, returns that bag (CompileBag) and never fails to compile (CompileTotal). The shape of every real SQLAlchemy statement (nesting, DISTINCT, WHERE/ON, ORDER BY directions, OFFSET/LIMIT, columns) is compared with the shape the model predicts. Every TLC state is built through the real API, compiled by the real engine, run on SQLite with reverse_unordered_selects off and on, and compared as a multiset with TLC's rows; the real tree is also judged by TLC (denotation guarded by TLC's own determinacy analysis of the real tree). Operands include relations made by the engine itself (doomed, zero-column doomed, join identity); column tags have colliding hashes and column sets are declared in different insertion orders so that positional UNION pairing is exercised. Deep random programs (5-12 operations) run on SQLite are judged by TLC (TraceProgram).",
+        text="TLC enumerates programs over tables T1{a,b} (3-12 contents incl. duplicates/empties, exact/loose/zero/unbounded declarations), T2{a,c}, T3{a,b}: the six unary operations from a general menu (all projections, 10 predicates, 7 sort lists, 7 slices) to depth 2 and a focused 12-operation menu (hitting every has_slice/has_dedup/has_projection/compound branch of the Select machine) to depth 3-5, plus join (with/without predicate, operand on either side) and chain with 12 pre-built operands (projected, deduplicated, selected, sorted+sliced, calculated, bare chain). TLC proves on the code-shaped Select machine that the tree denotes the reference bag for both physical table orders whenever the bag is determined, and - on the code-shaped COMPILATION model RA_SqlCompile (to_payload / _select_to_executable with the columns_available plumbing) - that the abstract SQL statement, run with both table orders, returns that bag (CompileBag) and never fails to compile (CompileTotal). The shape of every real SQLAlchemy statement (nesting, DISTINCT, WHERE/ON, ORDER BY directions, OFFSET/LIMIT, columns) is compared with the shape the model predicts. Every TLC state is built through the real API, compiled by the real engine, run on SQLite with reverse_unordered_selects off and on, and compared as a multiset with TLC's rows; the real tree is also judged by TLC (denotation guarded by TLC's own determinacy analysis of the real tree). Operands include relations made by the engine itself (doomed, zero-column doomed, join identity); column tags have colliding hashes and column sets are declared in different insertion orders so that positional UNION pairing is exercised. Deep random programs (5-12 operations) run on SQLite are judged by TLC (TraceProgram). Additionally 1 500 (quick) / 40 000 (thorough) seeded RANDOM POOL PROGRAMS (8-16 steps building on any earlier member: operations with random preferred-engine options, chains, joins incl. explicit max_columns, transfers among three engines, materializations, trees returned by process()) are evaluated for real and judged by TLC (TracePool.tla), which computes the reference rows of every member from the recorded steps and applies its own determinacy analysis to the real tree.",
         design_ref="§0.1, §6 C02",
         note="bounded: values 0..1, <=4 rows; SQLite only; bag equality demanded only when TLC's DetTree holds; nested bare compound selects are compiled but not executed (SQLite grammar limit)",
     ),
     "C08": dict(
         technique=SQL + " ; " + ITER,
-        text="Every SqlProgram / IterProgram state is a call sequence the model accepts; the replay demands that the real factories accept it too and that the result compiles and executes on SQLite (or in the iteration engine) without any exception, in both scan orders; exceptions after construction (KeyError, NotImplementedError, database errors) are violations.",
+        text="Every SqlProgram / IterProgram state is a call sequence the model accepts; the replay demands that the real factories accept it too and that the result compiles and executes on SQLite (or in the iteration engine) without any exception, in both scan orders; exceptions after construction (KeyError, NotImplementedError, database errors) are violations. Additionally 1 500 (quick) / 40 000 (thorough) seeded RANDOM POOL PROGRAMS (8-16 steps building on any earlier member: operations with random preferred-engine options, chains, joins incl. explicit max_columns, transfers among three engines, materializations, trees returned by process()) are evaluated for real and judged by TLC (TracePool.tla), which computes the reference rows of every member from the recorded steps and applies its own determinacy analysis to the real tree.",
         design_ref="§6 C08",
         note="joins/chains of arbitrarily built operands from the 12-operand menu; each further occurrence of a table in one query gets its own alias (user obligation for self-joins)",
     ),
     "C11": dict(
         technique=SQL,
-        text="For every SqlProgram state TLC decides from the data whether the outermost query level carries a sort that totally orders its rows (OrdTree) and proves in the model that the tree's denotation then equals the reference LIST for both physical orders; the replay fetches rows in order from SQLite for both scan orders and demands list equality in exactly those states (slices under a total sort, trailing sort followed by slices/projections/deduplications). Requests that would bury a sort without slice under a join or chain are listed by TLC as must-be-refused (invariant OrderLossRefused) and the replay demands RelationalAlgebraError. Deep random programs add list comparisons judged by TLC whenever its ListDet analysis of the real tree holds.",
+        text="For every SqlProgram state TLC decides from the data whether the outermost query level carries a sort that totally orders its rows (OrdTree) and proves in the model that the tree's denotation then equals the reference LIST for both physical orders; the replay fetches rows in order from SQLite for both scan orders and demands list equality in exactly those states (slices under a total sort, trailing sort followed by slices/projections/deduplications). Requests that would bury a sort without slice under a join or chain are listed by TLC as must-be-refused (invariant OrderLossRefused) and the replay demands RelationalAlgebraError. Deep random programs add list comparisons judged by TLC whenever its ListDet analysis of the real tree holds. Additionally 1 500 (quick) / 40 000 (thorough) seeded RANDOM POOL PROGRAMS (8-16 steps building on any earlier member: operations with random preferred-engine options, chains, joins incl. explicit max_columns, transfers among three engines, materializations, trees returned by process()) are evaluated for real and judged by TLC (TracePool.tla), which computes the reference rows of every member from the recorded steps and applies its own determinacy analysis to the real tree.",
         design_ref="§0.1, §6 C11",
         note="focused menu: total and partial sorts, three slice windows, projection, deduplication, selection, calculation in every relative position to depth 3 (quick) / 5 (thorough)",
     ),
@@ -79,9 +79,9 @@ CHECKS = {
     ),
     "C03": dict(
         technique=MULTI,
-        text="TLC enumerates trees with the source leaf in the SQL engine or an iteration engine, up to 2 (quick) / 3 (thorough) default-option calls (8 operations, transfers to each of three engines incl. round trips and self-transfers, materializations), then ONE final operation out of 6-16 (calculation, projections incl. ones that drop columns needed downstream, selections, deduplication, sorts, slices) with all 24 combinations of preferred engine x backtrack x transfer x require_preferred_engine, and joins with a SQL leaf under every backtrack/transfer combination. On the code-shaped apply/backtrack/commute/transfer rules TLC proves: content equals the naive application (list or bag, as determined), columns equal, no ColumnError from placement (NoPlacementColumnError), transfer=>result in the preferred engine unless backtracking fully succeeded, require=>no operation added outside it. Every state is replayed through the real API, processed by a real Processor (SQLite temp tables <-> RowSequence) and executed; rows, columns, engine and operation counts per engine are compared with TLC's oracle. The final call is ALSO issued on the tree returned by Processor.process() (transfers and materializations hold payloads): TLC runs the as-coded processor model (RA_Proc) and then the same apply/backtrack rules on the payloaded tree and proves ProcessedBaseSound (accepted like on the unprocessed tree, well-formed, reference rows, truthful bounds, a payload survives only on a marker whose upstream is unchanged); the replay does the same with a real Processor and compares rows, tree structure and the payload cell of every marker with the model. Joins are issued both as rel.join(T2) and as Join(p).partial(T2, is_lhs=True).apply(rel).",
+        text="TLC enumerates trees with the source leaf in the SQL engine or an iteration engine, up to 2 (quick) / 3 (thorough) default-option calls (8 operations, transfers to each of three engines incl. round trips and self-transfers, materializations), then ONE final operation out of 6-16 (calculation, projections incl. ones that drop columns needed downstream, selections, deduplication, sorts, slices) with all 24 combinations of preferred engine x backtrack x transfer x require_preferred_engine, and joins with a SQL leaf under every backtrack/transfer combination. On the code-shaped apply/backtrack/commute/transfer rules TLC proves: content equals the naive application (list or bag, as determined), columns equal, no ColumnError from placement (NoPlacementColumnError), transfer=>result in the preferred engine unless backtracking fully succeeded, require=>no operation added outside it. Every state is replayed through the real API, processed by a real Processor (SQLite temp tables <-> RowSequence) and executed; rows, columns, engine and operation counts per engine are compared with TLC's oracle. The final call is ALSO issued on the tree returned by Processor.process() (transfers and materializations hold payloads): TLC runs the as-coded processor model (RA_Proc) and then the same apply/backtrack rules on the payloaded tree and proves ProcessedBaseSound (accepted like on the unprocessed tree, well-formed, reference rows, truthful bounds, a payload survives only on a marker whose upstream is unchanged); the replay does the same with a real Processor and compares rows, tree structure and the payload cell of every marker with the model. Joins are issued both as rel.join(T2) and as Join(p).partial(T2, is_lhs=True).apply(rel). Additionally 1 500 (quick) / 40 000 (thorough) seeded RANDOM POOL PROGRAMS (8-16 steps building on any earlier member: operations with random preferred-engine options, chains, joins incl. explicit max_columns, transfers among three engines, materializations, trees returned by process()) are evaluated for real and judged by TLC (TracePool.tla), which computes the reference rows of every member from the recorded steps and applies its own determinacy analysis to the real tree.",
         design_ref="§6 C03",
-        note="open findings F2 (projection past deduplication, pinned by a repository test) and F8 (SQL materialization after a transfer) are excluded by matcher+signature and reported as KNOWN-FINDING; a companion configuration proves the F2 class still violates; F17 (failed backtrack through a payloaded Transfer) was found by this check and fixed in /repo (9442585); companion MultiKF17 re-derives it from the pinned-commit rule",
+        note="open findings F2 (projection past deduplication, pinned by a repository test) and F8 (SQL materialization after a transfer) are excluded by matcher+signature and reported as KNOWN-FINDING; a companion configuration proves the F2 class still violates; F17 (failed backtrack through a payloaded Transfer) was found by this check and fixed in /repo (9442585); companion MultiKF17 re-derives it from the pinned-commit rule; F20 (a join moved below a projection lets the operations in between read the fixed operand's columns) was found by the random pool programs and fixed in /repo (67a6a29), companion MultiKF20; F18 fixed (63f7a7c), companion MultiKF18",
     ),
     "C15": dict(
         technique=MULTI,
@@ -91,9 +91,9 @@ CHECKS = {
     ),
     "C07": dict(
         technique="TLA+ spec ProcHistory (TLC exhaustive: trees x histories of process/reprocess/execute/attach over an abstract payload state machine) + conformance replay into the real Processor with a real SQLite<->iteration hook implementation; plus the MultiEngine replay (every tree processed and executed)",
-        text="TLC enumerates trees over a SQL or iteration source (<=3 quick / <=4 thorough building calls: operations, transfers among three engines, up to two materializations incl. directly after a transfer, chains with a statically empty leaf, chains of the tree with itself sharing its materialization nodes, zero-column branches) and every history of <=2 (quick) / <=3 (thorough) process / process-the-result-again / iteration execute / attach_payload actions, on an abstract state machine of payload cells. Every history is replayed into the real Processor (hooks implemented for real with SQLite temp tables and RowSequence): rows of the processed tree vs TLC's reference rows, structure of the input tree before/after, transfers of the input tree never payloaded, materializations payloaded exactly as the abstract machine says with the rows of their upstream, same columns/engine, hooks never called for statically empty/identity relations and always on sources that really evaluate. A second replay pass uses a Processor whose plain transfers hand over LAZY payloads (only materializations may cache), and histories over trees without any materialization but with a transfer above a chain are included.",
+        text="TLC enumerates trees over a SQL or iteration source (<=3 quick / <=4 thorough building calls: operations, transfers among three engines, up to two materializations incl. directly after a transfer, chains with a statically empty leaf, chains of the tree with itself sharing its materialization nodes, zero-column branches) and every history of <=2 (quick) / <=3 (thorough) process / process-the-result-again / iteration execute / attach_payload actions, on an abstract state machine of payload cells. Every history is replayed into the real Processor (hooks implemented for real with SQLite temp tables and RowSequence): rows of the processed tree vs TLC's reference rows, structure of the input tree before/after, transfers of the input tree never payloaded, materializations payloaded exactly as the abstract machine says with the rows of their upstream, same columns/engine, hooks never called for statically empty/identity relations and always on sources that really evaluate. A second replay pass uses a Processor whose plain transfers hand over LAZY payloads (only materializations may cache), and histories over trees without any materialization but with a transfer above a chain are included. Additionally 1 500 (quick) / 40 000 (thorough) seeded RANDOM POOL PROGRAMS (8-16 steps building on any earlier member: operations with random preferred-engine options, chains, joins incl. explicit max_columns, transfers among three engines, materializations, trees returned by process()) are evaluated for real and judged by TLC (TracePool.tla), which computes the reference rows of every member from the recorded steps and applies its own determinacy analysis to the real tree.",
         design_ref="§6 C07",
-        note="open findings F8 / F16 (SQL materialization whose upstream is rebuilt by process()) excluded by matcher+signature; the as-coded transcription RA_Proc!Process is proved by TLC to refine the abstract machine outside that class (ProcessRefines; companion ProcKF8 re-derives F8 in the model) and its predicted hook-call sequences are compared with the real Processor's hook log (zero drift)",
+        note="open findings F8 / F16 (SQL materialization whose upstream is rebuilt by process()) excluded by matcher+signature; the as-coded transcription RA_Proc!Process is proved by TLC to refine the abstract machine outside that class (ProcessRefines; companion ProcKF8 re-derives F8 in the model) and its predicted hook-call sequences are compared with the real Processor's hook log (zero drift); open finding F19 (process() prunes an empty chain branch, un-buries a sort and the re-applied join is refused) excluded by matcher+signature",
     ),
     "C09": dict(
         technique="TLA+ spec PoolHistory (TLC exhaustive to depth 2-3 + TLC simulation to depth 6-8 over a shared pool) + replay with deep fingerprints of every pool member and leaf payload after every step",
